@@ -41,7 +41,10 @@ class Run(PropRunStream):
     oracles = ("C02",)
     quick_cases = 300
     quick_seconds = 50
-    corpus = [witness("N1 "), witness("D11 ")] + W2.CONTROLS + W2.CONTROLS2 + W2.CONTROLS3 + [W2.THREAD_ENDS_WITH_PANIC]
+    p_files = 0.45              # the real json + junit backends saving the report during the run (`--reporting json junit --save-report …`)
+    file_backends = ("json", "junit")
+    savings = ("at_each_test", "at_each_test", "at_each_log", "at_each_failed_test", "at_each_suite")
+    corpus = W2.FILE_BACKEND_CONTROLS + [witness("N1 "), witness("D11 ")] + W2.CONTROLS + W2.CONTROLS2 + W2.CONTROLS3 + [W2.THREAD_ENDS_WITH_PANIC] + W2.CONTROLS4
     p_interrupt = 0.2
 
 
